@@ -1,6 +1,7 @@
 """C01 -- encode -> symbol -> decode returns exactly the original bytes."""
 import enccommon
 import gen
+import corpus
 from enccommon import model_line, canon_impl, ints
 
 PID = 'C01'
@@ -17,6 +18,7 @@ def gen_cases(rng, tier, ctx):
     cs = gen.encoder_cases(rng, tier, n, eci_share=10**9, op='rt')
     cs += gen.boundary_cases(rng, tier, per_cap=2 if tier == 'quick' else 6, op='rt')
     cs += gen.constant_cases(rng, tier, op='rt')
+    cs += corpus.encoder_cases('rt')
     cs += [c for c in gen.prefix_cases(rng, tier, op='rt') if c['cfg']['eci'] is None]   # decode_data rejects ECI by design
     return cs
 
